@@ -69,10 +69,11 @@ def make_payload(ptype, T, boundary='bnd'):
     raise AssertionError(ptype)
 
 
-def chunk_wire(body, sizes, endless_chunk=None):
+def chunk_wire(body, sizes, endless_chunk=None, long_ext=None):
     """-> (wire, offsets) where offsets[k] = wire offset right after payload byte k (1-based), computed lazily via
     function.  sizes are cycled over the body."""
     out = bytearray()
+    long_ext_at = chunk_wire.long_ext_at = []
     marks = []          # (payload_count_after_chunk, wire_offset_after_chunk_data, line_len)
     pos = 0
     i = 0
@@ -81,6 +82,10 @@ def chunk_wire(body, sizes, endless_chunk=None):
         s = min(len(body) - pos, sizes[i % len(sizes)])
         i += 1
         line = b'%x\r\n' % s
+        if long_ext is not None and i - 1 == long_ext[0]:
+            # a chunk extension longer than the buffer: the size line must be given up after one buffer
+            line = b'%x;x=' % s + b'a' * long_ext[1] + b'\r\n'
+            long_ext_at.append(len(out))
         maxline = max(maxline, len(line))
         out += line
         data_start = len(out)
@@ -141,6 +146,9 @@ def _gen_case(rng, tier):
         case['cl_too'] = rng.choice([0, 1, max(0, len(body) // 2), len(body)])
     if M is not None and rng.random() < 0.3:
         case['retry'] = True      # the handler touches the body again after the refusal
+    if case['framing'] == 'chunked' and not case['endless'] and len(body) > 0 and rng.random() < 0.12:
+        n_chunks = max(1, len(body) // max(1, max(case['chunk_sizes'])))
+        case['long_ext'] = [rng.randrange(0, min(n_chunks, 4)), B + rng.choice([1, 7, 300, 5000])]
     return case
 
 
@@ -166,7 +174,9 @@ def _run_case(case):
             line = b'%x\r\n' % c
             endless_pat = line + b'z' * c + b'\r\n'
             ec = (c, len(line))
-        wire, marks, maxline = chunk_wire(body, case['chunk_sizes'], endless_chunk=ec)
+        le = case.get('long_ext')
+        wire, marks, maxline = chunk_wire(body, case['chunk_sizes'], endless_chunk=ec, long_ext=le)
+        long_line_at = chunk_wire.long_ext_at[0] if (le and chunk_wire.long_ext_at) else None
         cl = None
         if K is not None:
             bound = chunked_bound(marks, maxline, size, K, len(wire), ec, len(wire))
@@ -204,6 +214,14 @@ def _run_case(case):
             violation(res, 'C13:unbounded-read', f'reader exceeded its read budget: {o.hang}')
         elif code is None or code >= 500:
             violation(res, 'C13:server-error', f'status {o.resp.status!r}')
+        if chunked and case.get('long_ext') and long_line_at is not None and o.hang is None:
+            # an over-long size line may be refused, but not read to its end: at most one buffer of it
+            allowed = long_line_at + B + 2
+            res['fired']['over_long_chunk_extension'] += 1
+            if st.consumed > allowed:
+                violation(res, 'C13:size-line-read-beyond-buffer',
+                          f'a chunk-size line with a {case["long_ext"][1]}-byte extension starts at offset {long_line_at}; '
+                          f'with max_memfile_size={B} the stream handed out {st.consumed} bytes (allowed {allowed})')
         res['steps'] = st.n_calls
         res['digest'] = log.digest()
         return res
